@@ -798,7 +798,73 @@ class C09(ScanProperty):
             'reset or exhaustion followed by a position check')
     N = {'quick': 400, 'thorough': 8000}
 
+    def gen_rescan_case(self, rng):
+        """Many short lines, tokens that span line breaks, and the history the property names: scan (to the
+        end or part of the way), then any number of rounds of {reset to an already scanned offset (inside
+        tokens, inside lines, at line starts), a PARTIAL re-scan, position queries for every boundary}."""
+        pats = rng.choice([
+            [{'p': '(a|b|\\n)+', 't': 1}, {'p': ';', 't': 2}],
+            [{'p': '[ab]+\\n?', 't': 1}, {'p': '\\n', 't': 2}, {'p': ';', 't': 3}],
+            [{'p': 'a+', 't': 1}, {'p': 'b+', 't': 2}, {'p': '\\n+', 't': 3}],
+            [{'p': '[ab]', 't': 1}, {'p': '(\\n|;)(\\n|;)?', 't': 2}],
+            [{'p': '[^;]+', 't': 1}],
+            [{'p': 'a', 't': 1}],                      # most characters unmatched: the skip path records the lines
+            # delimited multi-line tokens: where a scan starts decides how the text is cut into tokens, so a reset
+            # into a token makes ONE later token cover known and new line starts
+            [{'p': '[ab]+', 't': 1}, {'p': '\\n', 't': 2}, {'p': ';[^;]*;', 't': 3}, {'p': ';', 't': 4}],
+            [{'p': '[ab]+', 't': 1}, {'p': '\\n', 't': 2}, {'p': ';[^;]*;', 't': 3}, {'p': ';', 't': 4}],
+            [{'p': '[ab\\n]', 't': 1}, {'p': ';([ab]|\\n)*;?', 't': 3}],
+        ])
+        if rng.random() < 0.35:
+            # constructed: the first pass cuts `;w;` and then the words and line breaks of `mid` one by one and stops
+            # inside mid; the reset goes to the SECOND delimiter, from where ONE token `;mid;` covers line starts
+            # recorded in the first pass and line starts never seen before
+            pats = [{'p': '[ab]+', 't': 1}, {'p': '\\n', 't': 2}, {'p': ';[^;]*;', 't': 3}, {'p': ';', 't': 4}]
+            w = ''.join(rng.choice('ab') for _ in range(rng.randint(0, 2)))
+            pieces = []
+            for _ in range(rng.randint(2, 4)):
+                pieces.append('\n')
+                if rng.random() < 0.7:
+                    pieces.append(''.join(rng.choice('ab') for _ in range(rng.randint(1, 2))))
+            mid = ''.join(pieces)
+            tail = rng.choice(['', 'a', '\nb', '\n', 'a\n;b'])
+            inp = ';' + w + ';' + mid + ';' + tail
+            k = 1 + rng.randint(1, max(1, len(pieces) - 1))
+            ops = [['nextpos']] * k + [['set_offset', 1 + len(w)]] + [['nextpos']] * rng.randint(1, 2)
+            bs = gen.boundaries(inp)
+            ops += [['position', b] for b in bs if b <= len(';' + w + ';' + mid + ';')]
+            if rng.random() < 0.6:
+                ops += [['nextpos']] * (len(inp) + 1) + [['position', b] for b in bs]
+            return {'modes': [{'name': 'M0', 'patterns': pats, 'transitions': []}], 'input': inp, 'ops': ops, 'with_positions': True}
+        modes = [{'name': 'M0', 'patterns': pats, 'transitions': []}]
+        nl = rng.randint(2, 6)
+        lines = [''.join(rng.choice(['a', 'b', 'a', 'b', ';', ';', '\u00e9']) for _ in range(rng.randint(0, 3))) for _ in range(nl)]
+        inp = '\n'.join(lines) + ('\n' if rng.random() < 0.5 else '')
+        bs = gen.boundaries(inp)
+        ops = []
+        if rng.random() < 0.45:
+            ops += [['nextpos']] * (len(inp) + 1)          # exhausted: every offset is an already scanned one
+            low = bs
+        else:
+            k = rng.randint(2, 6)
+            ops += [['nextpos']] * k
+            # k tokens cover at least k characters: offsets up to there are already scanned (later ones may or may
+            # not be; the judge drops a case from the first reset beyond the frontier on)
+            low = [b for b in bs if b <= len(''.join(list(inp)[:k]).encode('utf-8')) + (rng.randint(0, 2) if rng.random() < 0.3 else 0)] or [0]
+        for _ in range(rng.randint(1, 3)):
+            ops.append(['set_offset', rng.choice(low)])
+            ops += [['nextpos']] * rng.randint(0, 3)
+            qs = list(bs)
+            rng.shuffle(qs)
+            for b in qs[:rng.randint(2, len(qs))]:
+                ops.append(['position', b])
+        if rng.random() < 0.5:
+            ops += [['nextpos']] * (len(inp) + 1) + [['position', b] for b in bs]
+        return {'modes': modes, 'input': inp, 'ops': ops, 'with_positions': True}
+
     def gen_case(self, rng, i):
+        if i % 3 == 1:
+            return self.gen_rescan_case(rng)
         alpha = rng.choice([('a', 'b', '\n'), ('a', '\n', 'é'), ('a', 'b', '\n'), ('\r', '\n', 'a')])
         modes = [gen.gen_small_mode(rng, 'M0', alpha, rng.randint(1, 4), 0.15)]
         if rng.random() < 0.5:
